@@ -2,13 +2,10 @@ SPECIFICATION Spec
 CONSTANTS
   NPos = 3
   MaxRules = 3
-  Modes = {"fill", "free"}
-  Domain = "cover"
-VIEW View
+  Modes = {"free"}
+  Domain = "product"
 INVARIANT TypeOK
 INVARIANT NoCounterWithoutRule
-INVARIANT ScanIsLowestMatch
-INVARIANT DeciderIsLowestMatch
 PROPERTY VerdictProp
 PROPERTY AddProp
 PROPERTY RemoveProp
